@@ -32,7 +32,7 @@ import (
 var c11Mutations = []string{"emptyiss", "emptyaud", "iss1byte", "isstrunc", "issbad", "isshuge", "isscorekey", "isscoreempty",
 	"sigempty", "sigcodeonly", "sigshort", "sighugesize", "sigsizemax", "sigsizenearmax", "sigbadcode", "sigbadvarint", "sig",
 	"nocaps", "capempty", "nbnull", "nbstring", "manycaps", "prfdangling", "prfmany",
-	"expneg", "expzero", "expmax", "nbfmax", "nbfneg", "verweird", "verempty", "nncempty", "aud", "cap", "exp"}
+	"expneg", "expzero", "expmax", "nbfmax", "nbfneg", "verweird", "verempty", "ver0", "ver0dot", "ver09", "verlong", "verdots", "nncempty", "aud", "cap", "exp"}
 
 type c11Item struct {
 	Kind  string // "batch" | "raw"
@@ -131,7 +131,12 @@ func c11Items(seed int64, tier string) []*c11Item {
 					sp.Tamper, sp.TamperTo = mut, b.W.Cast.Ed("carol")
 				}
 			}
-			items = append(items, &c11Item{Kind: "batch", Label: fmt.Sprintf("%s@%s", mut, tgt), Batch: b})
+			label := fmt.Sprintf("%s@%s", mut, tgt)
+			if id%3 == 1 {
+				b.DefaultOpts = true
+				label += " server-with-default-options"
+			}
+			items = append(items, &c11Item{Kind: "batch", Label: label, Batch: b})
 			id++
 		}
 	}
@@ -158,6 +163,10 @@ func c11Items(seed int64, tier string) []*c11Item {
 	for k := 1; k <= 4; k++ {
 		for _, mutual := range []bool{true, false} {
 			items = append(items, &c11Item{Kind: "batch", Label: fmt.Sprintf("nested-sessions k=%d mutual=%v", k, mutual), Batch: c11Nested(seed, id, k, mutual)})
+			id++
+			nb := c11Nested(seed, id, k, mutual)
+			nb.DefaultOpts = true
+			items = append(items, &c11Item{Kind: "batch", Label: fmt.Sprintf("nested-sessions k=%d mutual=%v server-with-default-options", k, mutual), Batch: nb})
 			id++
 		}
 	}
